@@ -305,7 +305,9 @@ func stringContents(c *engine.Ctx) {
 		Set  func(p, f *sbom.Node, v string)
 	}
 	slots := []slot{
-		{"pkg.hash.raw", func(p, f *sbom.Node, v string) { p.Hashes = map[int32]string{int32(sbom.HashAlgorithm_SHA1): v, int32(sbom.HashAlgorithm_MD5): v} }},
+		{"pkg.hash.raw", func(p, f *sbom.Node, v string) {
+			p.Hashes = map[int32]string{int32(sbom.HashAlgorithm_SHA1): v, int32(sbom.HashAlgorithm_MD5): v}
+		}},
 		{"pkg.name", func(p, f *sbom.Node, v string) { p.Name = v }},
 		{"pkg.version", func(p, f *sbom.Node, v string) { p.Version = v }},
 		{"pkg.url_home", func(p, f *sbom.Node, v string) { p.UrlHome = v }},
@@ -320,14 +322,18 @@ func stringContents(c *engine.Ctx) {
 		{"pkg.extref.comment", func(p, f *sbom.Node, v string) {
 			p.ExternalReferences = []*sbom.ExternalReference{{Type: sbom.ExternalReference_NPM, Url: "https://r/x", Comment: v}}
 		}},
-		{"pkg.supplier.name(+email)", func(p, f *sbom.Node, v string) { p.Suppliers = []*sbom.Person{{Name: v, Email: "info@example.com", IsOrg: true}} }},
+		{"pkg.supplier.name(+email)", func(p, f *sbom.Node, v string) {
+			p.Suppliers = []*sbom.Person{{Name: v, Email: "info@example.com", IsOrg: true}}
+		}},
 		{"pkg.supplier.name", func(p, f *sbom.Node, v string) { p.Suppliers = []*sbom.Person{{Name: v}} }},
 		{"pkg.originator.name(+email)", func(p, f *sbom.Node, v string) { p.Originators = []*sbom.Person{{Name: v, Email: "o@example.com"}} }},
 		{"pkg.originator.name", func(p, f *sbom.Node, v string) { p.Originators = []*sbom.Person{{Name: v, IsOrg: true}} }},
 		{"pkg.supplier.email", func(p, f *sbom.Node, v string) { p.Suppliers = []*sbom.Person{{Name: "Sup Plier", Email: v}} }},
 		{"pkg.license_concluded", func(p, f *sbom.Node, v string) { p.LicenseConcluded = v }},
 		{"pkg.url_download", func(p, f *sbom.Node, v string) { p.UrlDownload = "https://d/" + v }},
-		{"pkg.cpe23", func(p, f *sbom.Node, v string) { p.Identifiers = map[int32]string{int32(sbom.SoftwareIdentifierType_CPE23): "cpe:2.3:a:" + v} }},
+		{"pkg.cpe23", func(p, f *sbom.Node, v string) {
+			p.Identifiers = map[int32]string{int32(sbom.SoftwareIdentifierType_CPE23): "cpe:2.3:a:" + v}
+		}},
 		{"file.hash", func(p, f *sbom.Node, v string) { f.Hashes = map[int32]string{int32(sbom.HashAlgorithm_SHA1): v} }},
 		{"pkg.purl", func(p, f *sbom.Node, v string) {
 			p.Identifiers = map[int32]string{int32(sbom.SoftwareIdentifierType_PURL): "pkg:generic/" + v}
